@@ -12,7 +12,22 @@
    A program is an action tree: a function is its list of instructions plus
    its debug table (pc to source line); a call or a defer instruction carries
    the callee (in the VM it is a pointer to the Function).  The emitter ends
-   every function body with OpReturn: fetch appends it. *)
+   every function body with OpReturn: fetch appends it.
+
+   Callbacks (vm.go callable.Value): a native function that is given a Scriggo
+   function value calls it through reflect.MakeFunc; the closure creates a new
+   VM on the same env (nvm := create(env)) and runs the function with
+   nvm.runFunc.  The machine therefore has a stack of suspended VMs (souter):
+   the calling VM waits inside its OpCallNative until the new VM has finished.
+   What the closure does with the error of runFunc is written from the code:
+   nil - the native function returns and the caller goes on; a PanicError - it
+   panics with a fatalError whose message is the text of the chain, which
+   convertPanic of every VM below returns as it is, so that VM.Run panics with
+   that text; any other error (the stopError of env.Stop, the fatalError of
+   env.Fatal) - it panics with the error itself (it wraps only the error of
+   the context in a stopError), and convertPanic of the VMs below returns it
+   as it is: Run returns the error given to Stop / panics with the value given
+   to Fatal exactly as without the callback. *)
 From Coq Require Import List NArith Bool Arith.
 Import ListNotations.
 
@@ -36,7 +51,8 @@ Inductive instr :=
 | IDeferNat (k : natk)                            (* OpDefer of a native function *)
 | IPanic (v : N)                                  (* OpPanic *)
 | IRecover (down : bool)                          (* OpRecover; down = operand a > 0 (the body of `defer recover()`) *)
-| IReturn.                                        (* OpReturn *)
+| IReturn                                         (* OpReturn *)
+| ICallback (b : list instr) (inf : list (nat * N)). (* OpCallNative of a native function that calls back, once, the function literal it is given *)
 
 Record func := mkfunc { fbody : list instr; finfo : list (nat * N) }.
 
@@ -59,9 +75,13 @@ Inductive outcome :=
 | OPanic (chain : list (N * bool * option N))
 | OStop (e : N)
 | ORunPanics (v : N)
-| OCrash.
+| OCrash
+| OCbPanic (chain : list (N * bool)).   (* Run panics with the text of the chain of a panic that left a callback (newest first: message, recovered) *)
 
 Inductive mode := MExec | MNext (i1 : nat).   (* MNext (S i): the loop of nextCall is at index i; MNext 0: it has finished (returns false) *)
+
+(* a VM that waits in a native call for the VM of a callback to finish *)
+Record saved := mksaved { vfn : func; vpc : nat; vcalls : list frame; vchain : list prec }.
 
 Record state := mkstate {
   smode : mode;
@@ -70,21 +90,22 @@ Record state := mkstate {
   scalls : list frame;        (* vm.calls, bottom first *)
   schain : list prec;         (* vm.panic, then its next links *)
   str : list event;           (* trace, newest first *)
-  sraised : N                 (* number of panics raised so far (ghost) *)
+  sraised : N;                (* number of panics raised so far (ghost) *)
+  souter : list saved         (* the VMs suspended in a native function that called back, innermost first *)
 }.
 
 Inductive sres := Next (s : state) | Fin (o : outcome) (tr : list event).
 
 Definition set_mode (s : state) (m : mode) : state :=
-  mkstate m (sfn s) (spc s) (scalls s) (schain s) (str s) (sraised s).
+  mkstate m (sfn s) (spc s) (scalls s) (schain s) (str s) (sraised s) (souter s).
 Definition set_calls (s : state) (c : list frame) : state :=
-  mkstate (smode s) (sfn s) (spc s) c (schain s) (str s) (sraised s).
+  mkstate (smode s) (sfn s) (spc s) c (schain s) (str s) (sraised s) (souter s).
 Definition set_chain (s : state) (c : list prec) : state :=
-  mkstate (smode s) (sfn s) (spc s) (scalls s) c (str s) (sraised s).
+  mkstate (smode s) (sfn s) (spc s) (scalls s) c (str s) (sraised s) (souter s).
 Definition emit (s : state) (e : event) : state :=
-  mkstate (smode s) (sfn s) (spc s) (scalls s) (schain s) (e :: str s) (sraised s).
+  mkstate (smode s) (sfn s) (spc s) (scalls s) (schain s) (e :: str s) (sraised s) (souter s).
 Definition set_pc (s : state) (pc : nat) : state :=
-  mkstate (smode s) (sfn s) pc (scalls s) (schain s) (str s) (sraised s).
+  mkstate (smode s) (sfn s) pc (scalls s) (schain s) (str s) (sraised s) (souter s).
 
 Definition set_status (fr : frame) (st : status) : frame := mkframe (fcl fr) (fpc fr) st.
 
@@ -101,11 +122,32 @@ Fixpoint info_get (l : list (nat * N)) (pc : nat) : option N :=
 Definition chain_view (c : list prec) : list (N * bool * option N) :=
   map (fun p => (pmsg p, precovered p, ppos p)) c.
 
+Definition cb_view (c : list prec) : list (N * bool) :=
+  map (fun p => (pmsg p, precovered p)) c.
+
+(* the suspended VM sv goes on after its native call: the callback returned nil *)
+Definition resume (sv : saved) (rest : list saved) (s : state) : state :=
+  mkstate MExec (Some (vfn sv)) (vpc sv) (vcalls sv) (vchain sv) (str s) (sraised s) rest.
+
+(* runFunc returns vm.panic (chain is not empty).  In the main VM it is what
+   Run returns; in the VM of a callback the closure of callable.Value turns it
+   into a fatalError with the text of the chain: every VM below passes it on
+   and Run panics with the text *)
+Definition end_panic (s : state) (chain : list prec) : sres :=
+  match souter s with
+  | [] => Fin (OPanic (chain_view chain)) (str s)
+  | _ :: _ => Fin (OCbPanic (cb_view chain)) (str s)
+  end.
+
 (* end of runFunc: the loop was left without an error *)
 Definition finish (s : state) : sres :=
   match schain s with
-  | [] => Fin ONil (str s)
-  | c => Fin (OPanic (chain_view c)) (str s)
+  | [] =>
+      match souter s with
+      | [] => Fin ONil (str s)
+      | sv :: rest => Next (resume sv rest s)
+      end
+  | c => end_panic s c
   end.
 
 Definition count_panicked (c : list frame) : nat :=
@@ -134,7 +176,7 @@ Definition native_in_next (nk : natk) (s : state) (k : state -> sres) : sres :=
 (* the part of nextCall after its switch: `if i >= 0 { ... }` followed by the loop's i-- *)
 Definition after_switch (s : state) (call : frame) (i : nat) : sres :=
   match fcl call with
-  | CFn f => Next (mkstate MExec (Some f) (fpc call) (firstn i (scalls s)) (schain s) (str s) (sraised s))
+  | CFn f => Next (mkstate MExec (Some f) (fpc call) (firstn i (scalls s)) (schain s) (str s) (sraised s) (souter s))
   | CNat nk => native_in_next nk s (fun s' => Next (set_mode s' (MNext i)))
   end.
 
@@ -266,10 +308,10 @@ Definition raise (s : state) (f : func) (pc0 : nat) (v : N) : sres :=
   let p := mkprec v false line (sraised s) in
   let chain' := p :: schain s in
   match scalls s with
-  | [] => Fin (OPanic (chain_view chain')) (str s)
+  | [] => end_panic s chain'
   | _ =>
       let calls' := scalls s ++ [mkframe (CFn f) 0 Panicked] in
-      Next (mkstate (MNext (length calls')) None (spc s) calls' chain' (str s) (N.succ (sraised s)))
+      Next (mkstate (MNext (length calls')) None (spc s) calls' chain' (str s) (N.succ (sraised s)) (souter s))
   end.
 
 Definition fetch (f : func) (pc : nat) : option instr := nth_error (fbody f ++ [IReturn]) pc.
@@ -291,7 +333,11 @@ Definition step_exec (s : state) : sres :=
           | IPanic v => raise s f pc0 v
           | ICall b inf =>
               Next (mkstate MExec (Some (mkfunc b inf)) 0 (scalls s ++ [mkframe (CFn f) (S pc0) Started])
-                            (schain s) (str s) (sraised s))
+                            (schain s) (str s) (sraised s) (souter s))
+          | ICallback b inf =>
+              (* callNative -> reflect.Call -> the closure of callable.Value: a new VM on the same env *)
+              Next (mkstate MExec (Some (mkfunc b inf)) 0 [] [] (str s) (sraised s)
+                            (mksaved f (S pc0) (scalls s) (schain s) :: souter s))
           | IDeferFn b inf => Next (set_calls s (scalls s ++ [mkframe (CFn (mkfunc b inf)) 0 Deferred]))
           | IDeferNat nk => Next (set_calls s (scalls s ++ [mkframe (CNat nk) 0 Deferred]))
           | IRecover down => do_recover s down
@@ -304,8 +350,8 @@ Definition step_exec (s : state) : sres :=
                   | Some call =>
                       if status_eqb (fstat call) Started then
                         match fcl call with
-                        | CFn g => Next (mkstate MExec (Some g) (fpc call) (firstn i (scalls s)) (schain s) (str s) (sraised s))
-                        | CNat _ => Next (mkstate MExec None (fpc call) (firstn i (scalls s)) (schain s) (str s) (sraised s))
+                        | CFn g => Next (mkstate MExec (Some g) (fpc call) (firstn i (scalls s)) (schain s) (str s) (sraised s) (souter s))
+                        | CNat _ => Next (mkstate MExec None (fpc call) (firstn i (scalls s)) (schain s) (str s) (sraised s) (souter s))
                         end
                       else Next (set_mode s (MNext (S i)))
                   end
@@ -321,7 +367,7 @@ Definition step (s : state) : sres :=
   | MNext (S i) => step_next s i
   end.
 
-Definition init (f : func) : state := mkstate MExec (Some f) 0 [] [] [] 0%N.
+Definition init (f : func) : state := mkstate MExec (Some f) 0 [] [] [] 0%N [].
 
 (* None: out of fuel *)
 Fixpoint run (n : nat) (s : state) : option (outcome * list event) :=
@@ -440,6 +486,13 @@ Fixpoint g_body (rec : func -> bool -> bool -> gst -> gres) (f : func) (by_panic
           | GPanicking g' => g_rundefers rec by_panic ds true false g'
           | other => other
           end
+      | ICallback b' inf =>
+          (* in Go the native function is an ordinary frame between the two: the same as a call *)
+          match rec (mkfunc b' inf) false false g with
+          | GNormal g' => g_body rec f by_panic parent_by_panic r (S pc) ds g'
+          | GPanicking g' => g_rundefers rec by_panic ds true false g'
+          | other => other
+          end
       | IDeferFn b' inf => g_body rec f by_panic parent_by_panic r (S pc) (CFn (mkfunc b' inf) :: ds) g
       | IDeferNat nk => g_body rec f by_panic parent_by_panic r (S pc) (CNat nk :: ds) g
       | IRecover down =>
@@ -476,7 +529,7 @@ Definition go_run (fuel : nat) (f : func) : option (outcome * list event) :=
 (* size of a tree: a fuel that is always enough for go_run; vm_run is given a multiple of it *)
 Fixpoint isize (i : instr) : nat :=
   match i with
-  | ICall b _ | IDeferFn b _ => S ((fix bs (l : list instr) : nat := match l with [] => 0 | x :: r => isize x + bs r end) b)
+  | ICall b _ | IDeferFn b _ | ICallback b _ => S ((fix bs (l : list instr) : nat := match l with [] => 0 | x :: r => isize x + bs r end) b)
   | _ => 1
   end.
 Fixpoint bsize (l : list instr) : nat := match l with [] => 0 | x :: r => isize x + bsize r end.
